@@ -24,7 +24,7 @@ type Scenario struct {
 	Workers int `json:"workers,omitempty"`
 }
 
-var header = []string{"ka", "kb", "v"}
+var header = []string{"ka", "kb", "t", "v"}
 
 func pkOf(shape string) []string {
 	switch shape {
@@ -40,7 +40,7 @@ func pkOf(shape string) []string {
 	return nil
 }
 
-// cell values: key component 0 is the EMPTY string, 2 is "m"; payload 0/1 is "p"/"q"
+// cell values: key component 0 is the EMPTY string, 2 is "m"; payload 0/1 is ""/"q" in the last column
 func keyCell(v int) string {
 	if v == 0 {
 		return ""
@@ -53,24 +53,26 @@ func keyCell(v int) string {
 // padding rows do (padding must not create hundreds of spill files)
 var longTail = strings.Repeat("x", 1000)
 
+// the payload is the LAST cell and is EMPTY for payload 0: rows that differ only in "last cell empty or not"
+// (without a key the whole row is compared) are part of the universe; the long constant cell keeps the sizes
 func payCell(v int) string {
 	if v == 0 {
-		return "p" + longTail
+		return ""
 	}
-	return "q" + longTail
+	return "q"
 }
-func concrete(r [3]int) []string { return []string{keyCell(r[0]), keyCell(r[1]), payCell(r[2])} }
+func concrete(r [3]int) []string { return []string{keyCell(r[0]), keyCell(r[1]), longTail, payCell(r[2])} }
 
 // padding rows sort strictly between key cells "" and "m"
 func padRow(i int) []string {
 	k := fmt.Sprintf("a%04d", i)
-	return []string{k, k, "pad"}
+	return []string{k, k, "pad", ""}
 }
 
 // abstract maps a real row back to its abstract triple; ok=false if it is no
 // scenario row (altered, truncated, foreign)
 func abstract(row []string) (r [3]int, ok bool) {
-	if len(row) != 3 {
+	if len(row) != 4 || row[2] != longTail {
 		return r, false
 	}
 	for i := 0; i < 2; i++ {
@@ -83,10 +85,10 @@ func abstract(row []string) (r [3]int, ok bool) {
 			return r, false
 		}
 	}
-	switch row[2] {
-	case "p" + longTail:
+	switch row[3] {
+	case "":
 		r[2] = 0
-	case "q" + longTail:
+	case "q":
 		r[2] = 1
 	default:
 		return r, false
@@ -216,7 +218,7 @@ func Compare(sc *Scenario, rows [][]string, rowsCount int) (kind string, detail 
 			}
 		default:
 			p := padRow(i - sc.PadAt)
-			if len(row) != 3 || row[0] != p[0] || row[1] != p[1] || row[2] != p[2] {
+			if len(row) != 4 || row[0] != p[0] || row[1] != p[1] || row[2] != p[2] || row[3] != p[3] {
 				return "padrow", map[string]interface{}{"position": i, "observed_row": row, "expected_row": p}
 			}
 		}
